@@ -162,6 +162,8 @@ def variants(pool, cfg):
                 out += [("update", i, k, val) for k in cfg["tcp_keys"] for val in (cfg["sizes"] if k == "size" else ["flip"])]
         if "remove" in ops:
             out.append(("remove", i))
+            # the flow's sort key changed (a live flow grows) and the flow is removed before any update hook ran
+            out.append(("remove_changed", i))
         if "mark" in ops:
             out.append(("mark", i))
     if "set_filter" in ops:
@@ -301,6 +303,17 @@ def run_history(X, n_ops, cfg):
         var = X.choose("op", menu)
         op = var[0]
         arg = ()
+        if op == "remove_changed":
+            f = pool[var[1]]
+            cur = o_key("size", f) if not _is_http(f) else len(f.request.raw_content or b"")
+            lo, hi = FLIP_SIZES[f.kind]
+            n = hi if cur == lo else lo
+            if _is_http(f):
+                f.request.content = b"x" * n
+            else:
+                f.messages = [tcp.TCPMessage(True, b"x" * n)] if n else []
+            X.reach("removed-with-stale-key")
+            op = "remove"
         if op in ("add", "update", "remove", "mark"):
             f = pool[var[1]]
             arg = (f.id,)
